@@ -436,7 +436,16 @@ def judge(r):
     # ---- events pending in the snapshot are delivered again
     if r.get("expect_events"):
         got = [(e[1], e[2]) for e in r["events_after"] if e[0] == x]
+        # handling an event that carries a completion action (PaymentSent, PaymentForwarded, PaymentClaimed) can raise
+        # further events within the same get_and_clear_pending_events call (the released monitor update completes and
+        # e.g. PaymentPathSuccessful is queued): only the events up to and including the first such event are known to
+        # have been in the serialized manager
+        expect = []
         for (name, detail) in r["expect_events"]:
+            expect.append((name, detail))
+            if name in ("PaymentSent", "PaymentForwarded", "PaymentClaimed"):
+                break
+        for (name, detail) in expect:
             if name not in PERSISTENT_EVENTS:
                 continue
             st["redelivery_checked"] += 1
